@@ -412,6 +412,34 @@ def monitorCall (cfg : Cfg) (cmp : String) (m : MonSt) (name : String) (ln : Nat
            else r
          | none => r)
       | _ => r
+    -- C07 (and C16 on a restored session): a PUBREL for an inbound QoS 2 message that was notified ends
+    -- the exchange - the identifier leaves the handled set, whatever connection the PUBLISH arrived on
+    let r := match op with
+      | "recv" :: _ =>
+        (match parseParsed (parseRecvOracle oracle).parsed with
+         | .ok p =>
+           (match p.pid with
+            | some id =>
+              let h2B := ((gp "h2").splitOn ",").contains (toString id)
+              let h2A := ((g "h2").splitOn ",").contains (toString id)
+              let okRc := p.rc = none ∨ p.rc = some 0
+              if p.kind = Kind.pubrel ∧ !m.prev.isEmpty ∧ h2B ∧ h2A ∧ okRc ∧ !Mon.hasError evs ∧ stBefore = "C" ∧ (parseRecvOracle oracle).frame ≠ "none" then
+                let msg := s!"{here}: PUBREL {id} was accepted for a notified inbound QoS 2 message, yet the identifier is still in the handled set afterwards (h2=[{g "h2"}]): the peer's next message under this identifier will be suppressed as a duplicate: {evS}"
+                let r := r.viol s!"C07 pubrel_leaves_id_handled@{site}" msg
+                if cmp = "C16" then r.viol s!"C16 pubrel_leaves_id_handled@{site}" msg else r
+              else r
+            | none => r)
+         | .error _ => r)
+      | _ => r
+    -- C11 (the connection-state column): a refusing CONNACK requested for sending ends the connection attempt
+    let r :=
+      let refusing := evs.any fun (e : Ev) => match e with
+        | .send q _ => q.kind = Kind.connack ∧ q.rc ≠ some 0 ∧ q.rc ≠ none
+        | _ => false
+      if refusing ∧ stAfter ≠ "D" then
+        let msg := s!"{here}: a refusing CONNACK was requested for sending, yet the connection is not disconnected afterwards (status {stAfter}): whatever is handed to send next is judged against the wrong state: {evS}"
+        (r.viol s!"C11 refusing_connack_keeps_state@{site}" msg).viol s!"C19 refusing_connack_keeps_state@{site}" msg
+      else r
     -- C15: a sent PINGREQ arms the response timer when a timeout is configured (every PINGREQ: the
     -- deadline counts from the last one)
     let r :=
